@@ -172,5 +172,10 @@ def rules(rep, facts):
         array_separators(rep, R5, facts)
 
 
+def _crossref(rep):
+    from .shared import clippy_crossref
+    clippy_crossref(rep, 'C08/R1x')
+
+
 def run(tier):
-    return run_property(PROP, tier, rules, configs_thorough=['default', 'perf', 'preserve_order', 'perf_preserve_order', 'unbounded', 'edit_nodefault'])
+    return run_property(PROP, tier, rules, configs_thorough=['default', 'perf', 'preserve_order', 'perf_preserve_order', 'unbounded', 'edit_nodefault'], extra=_crossref if tier == 'thorough' else None)
